@@ -910,6 +910,22 @@ class _Ctx:
             xargs = None
             if isinstance(s.exc, ast.Call):
                 xargs = tuple(self.ev(a, st) for a in s.exc.args)
+                if not (r and r[0] == 'class'):
+                    # raise _make_error(...): the class of the object the (package) helper returns
+                    try:
+                        tg = self.ti.resolve_call(s.exc, self.fn, self.types)
+                    except Exception:
+                        tg = None
+                    if tg is not None and tg.kind == 'pkg' and len(tg.funcs) == 1 and tg.via != 'ctor':
+                        names = set()
+                        for y in ast.walk(tg.funcs[0].node):
+                            if isinstance(y, ast.Return) and isinstance(y.value, ast.Call):
+                                f2 = y.value.func
+                                names.add(f2.id if isinstance(f2, ast.Name) else (f2.attr if isinstance(f2, ast.Attribute) else '?'))
+                            elif isinstance(y, ast.Return) and y.value is not None:
+                                names.add('?')
+                        if len(names) == 1 and '?' not in names:
+                            exc = names.pop()
         else:
             xargs = None
         self.emit(st, 'raise', s, exc=exc, via=(), direct=True, callee_writes=[], args=xargs)
@@ -1487,6 +1503,20 @@ class _Ctx:
                 return 'local', cur
             return 'local', cur
 
+    def _property_field(self, ci, attr):
+        """(owner, field) when `attr` is a read-only view property of `ci` whose getter is `return self.<field>`."""
+        for m in self.prog.lookup_method(ci, attr):
+            if not m.is_property or not m.params:
+                continue
+            body = [s for s in m.node.body if not (isinstance(s, ast.Expr) and isinstance(s.value, ast.Constant))]
+            if len(body) == 1 and isinstance(body[0], ast.Return) and isinstance(body[0].value, ast.Attribute) \
+                    and isinstance(body[0].value.value, ast.Name) and body[0].value.value.id == m.params[0]:
+                f = body[0].value.attr
+                owner = self.ti.field_owner(ci, f)
+                if owner is not None:
+                    return (owner.qualname, f)
+        return None
+
     def loc_of(self, expr: ast.expr, st: State) -> Optional[Tuple[str, str]]:
         """(owner class qualname, field) of the innermost instance field under `expr` (stripping subscripts)."""
         e = expr
@@ -1504,11 +1534,19 @@ class _Ctx:
             bt = self.ti.expr_type(e.value, self.fn, self.types)
             if bt and bt[0] == 'inst':
                 owner = self.ti.field_owner(bt[1], e.attr)
+                if owner is None:
+                    pf = self._property_field(bt[1], e.attr)
+                    if pf is not None:
+                        return pf
                 return ((owner or bt[1]).qualname, e.attr)
             if bt and bt[0] == 'cls':
                 meta = self.prog.metaclass_of(bt[1])
                 if meta is not None:
                     owner = self.ti.field_owner(meta, e.attr)
+                    if owner is None:
+                        pf = self._property_field(meta, e.attr)
+                        if pf is not None:
+                            return pf
                     return ((owner or meta).qualname, e.attr)
                 return (bt[1].qualname, e.attr)
             if e.attr == '__dict__':
@@ -1572,6 +1610,12 @@ class _Ctx:
         loc = self.loc_of(target_expr, st) if not isinstance(target_expr, ast.Name) else None
         if loc is None or loc[0] == '?':
             loc = self.loc_of_term(target_term) or loc
+        else:
+            # `self.components[k] = v` where `components` is a property returning `self._components`: the field is the one the
+            # evaluated target names
+            lt = self.loc_of_term(target_term)
+            if lt is not None and lt[1] != loc[1] and lt[0] != '?':
+                loc = lt
         # a store through a local alias of a field keeps the field's location
         shared = rk != 'fresh'
         if rk == 'local' and isinstance(target_expr, ast.Name):
@@ -1784,6 +1828,11 @@ class _Ctx:
         elif bt and bt[0] == 'cls':
             ci = self.prog.metaclass_of(bt[1])
         if ci is not None and self.ti.field_owner(ci, e.attr) is None:
+            pf = self._property_field(ci, e.attr)
+            if pf is not None:
+                # a view property `return self._x`: the field itself, at any inlining depth
+                p2 = Attr(base, pf[1])
+                return st.heap.get(p2, p2)
             for m in self.prog.lookup_method(ci, e.attr):
                 if m.is_property:
                     r = self.inline_call(m, base, [], {}, st, e)
